@@ -215,10 +215,10 @@ def showVal (v : PVal) : String := s!"{v.id}:{v.ty}"
 def showExec (e : ExecEv) : String :=
   s!"f{e.fid}#{e.nth}({",".intercalate (e.args.map showVal)})->{match e.res.err with | some x => s!"err{x}" | none => ",".intercalate (e.res.outs.map toString)}"
 
-def showOutcome (sc : Scn) (o : Outcome) : String :=
+def showOutcome (rep : Bool) (o : Outcome) : String :=
   match o with
   | .ok r => s!"ok {",".intercalate (r.outs.map toString)}"
-  | .unsat a g => s!"unsat {",".intercalate ((a.map showLabel).mergeSort (· ≤ ·))} graph={g && sc.reportsInputs}"
+  | .unsat a g => s!"unsat {",".intercalate ((a.map showLabel).mergeSort (· ≤ ·))} graph={g && rep}"
   | .convErr e => if e = 1 then "e0 typednil" else s!"e0 {e}"
   | .targetErr e _ => if e = 1 then "e0 typednil" else s!"e0 {e}"
   | .missingArg => "missingarg"
@@ -278,8 +278,10 @@ def replayRun (fl : Flags) (sc : Scn) (b : Builder) (cgr : CallGraphResult) (tar
                      skipRecordsInput := fl.skipRecordsInput, auto := auto }
   let (o, st) := callWith ctx cgr target (fuelFor sc) { initSt cgr.cg memo0 items with count := count0 }
   let ires := resOf evs
-  let c2 := if showOutcome sc o = showImplRes ires then none
-            else some s!"outcome_model=[{noSpace (showOutcome sc o)}]_impl=[{noSpace (showImplRes ires)}]"
+  -- the unsatisfied error of a call without any input or converter carries empty lists
+  let rep := !b.named.isEmpty || !b.namedSub.isEmpty || !b.typed.isEmpty || !b.typedSub.isEmpty || !b.convs.isEmpty
+  let c2 := if showOutcome rep o = showImplRes ires then none
+            else some s!"outcome_model=[{noSpace (showOutcome rep o)}]_impl=[{noSpace (showImplRes ires)}]"
   let mlog := if convertRun then st.log.filter (fun e => e.fid != 0) else st.log
   let c3 := if mlog.map showExec = execs.map showExec then none
             else some s!"execlog_model=[{";".intercalate (mlog.map showExec)}]_impl=[{";".intercalate (execs.map showExec)}]"
@@ -534,13 +536,25 @@ def runCall (fl : Flags) (b : Block) (conv : Bool := false) : Res :=
   let c07 : String :=
     if fam = "affA" then
       let conv := natOf ((kv b.head "conv").getD "0")
-      let want := natOf ((kv b.head "want").getD "0")
+      -- want=<param>:<vid>,…  each named parameter must receive the conversion of the input of its own name
+      let wants := ((kv b.head "want").getD "").splitOn "," |>.filterMap (fun w =>
+        match w.splitOn ":" with | [n, v] => some (n, natOf v) | _ => none)
       match runs.findSome? (fun r =>
-        let ex := (execsOf r).filter (fun e => e.fid == conv)
+        let ex := execsOf r
+        let cex := ex.filter (fun e => e.fid == conv)
         if !isOkRes (resOf r) then some s!"call_{outcomeClass (resOf r)}"
-        else if ex.length ≠ 1 then some s!"converter_executed_{ex.length}_times"
-        else if (ex.headD default).args.map (·.id) ≠ [want] then some s!"converted_value_{(ex.headD default).args.map (·.id)}_instead_of_the_same-named_{want}"
-        else none) with
+        else match ex.find? (fun e => e.fid == 0) with
+          | none => some "target_not_executed"
+          | some te =>
+            (target.input.labels.zip te.args).findSome? (fun pa =>
+              match wants.find? (fun w => w.1 == pa.1.name) with
+              | none => none
+              | some w =>
+                -- the execution of the converter that produced this argument
+                match cex.find? (fun e => e.res.outs.contains pa.2.id) with
+                | none => some s!"parameter_{pa.1.name}_not_produced_by_the_converter"
+                | some e => if e.args.map (·.id) = [w.2] then none
+                            else some s!"parameter_{pa.1.name}_converted_from_{e.args.map (·.id)}_instead_of_the_same-named_{w.2}")) with
       | some m => "FAIL:" ++ noSpace m
       | none => "ok"
     else if fam = "affB" then
